@@ -32,11 +32,12 @@ THEOREMS = [NS + t for t in (
     'C01_init_nodata_inv', 'C01_init_stored_inv', 'C01_init_loaded_inv', 'C01_nodata', 'C01_stored', 'C01_loaded',
     'C01_stored_by_evaluation', 'C01_eqv_sound_needed', 'pyEq_not_sound', 'typedEq_sound', 'C01_pyEq_counterexample',
     'C01_blank_write_counterexample', 'C01_stale_stored_counterexample',
+    'C01_reset_passthrough_same_under_inv', 'C01_reset_passthrough_counterexample',
     'C01_coherence_ext', 'C01_evaluate_list', 'C01_setMany_inputs', 'tolEq_not_sound',
     'C01_coherence_inst', 'C01_inputs_current_inst')]
 DESIGN_REF = 'DESIGN.md §7 C01'
 RULE = ('random DAG workbooks (2-14 cells on one or two sheets, blank cells, range nodes incl. 2-D and ranges over '
-        'formula cells that read other ranges, cross-sheet references, defined names for cells and ranges; formulas =ref, a&"|"&b…, a+b, SUM, COUNT, INDEX) x '
+        'formula cells that read other ranges, cross-sheet references, defined names for cells and ranges; formulas =ref, a&"|"&b…, a+b, a-b, a=b, SUM, COUNT, INDEX, SUM over a range intersection) x '
         'histories of 1-25 set_value/evaluate operations followed by an evaluate of every node, written scalars from '
         '{ints, text, "", TRUE/FALSE, None} biased to the 0/FALSE/None/"" and 1/TRUE collisions, 4% writes to cells not '
         'yet in the cell map; configurations in-memory / .xlsx with stored results / yml / json / pkl round trip. '
@@ -123,6 +124,9 @@ def formula_of(nodes, i, names=None):
         return '=COUNT(' + ','.join(ref(j) for j in args) + ')'
     if kind == 'idx':
         return f'=INDEX({ref(args[0])},{args[1]},{args[2]})'
+    if kind == 'isum':      # range intersection: both operands are declared precedents, only the common cells are read
+        plain = lambda j: _addr_of(nodes, j, sheet)   # noqa
+        return f'=SUM({plain(args[0])} {plain(args[1])})'
     raise ValueError(kind)
 
 
@@ -321,6 +325,9 @@ def model_lines(case):
             kind, args = n[2], n[3]
             if kind in ('cat', 'sum', 'cnt'):
                 toks += ['F', kind, str(len(args))] + [str(j) for j in args]
+            elif kind == 'isum':
+                toks += ['F', kind, str(args[0]), str(args[1]), str(len(args[2]))] + \
+                        [str(x) for p in args[2] for x in p]
             else:
                 toks += ['F', kind] + [str(j) for j in args]
         else:
@@ -409,7 +416,7 @@ def _precedents(nodes):
         if n[0] == 'I':
             deps.append(set())
         elif n[0] == 'F':
-            deps.append(set(n[3][:1]) if n[2] == 'idx' else set(n[3]))
+            deps.append(set(n[3][:1]) if n[2] == 'idx' else set(n[3][:2]) if n[2] == 'isum' else set(n[3]))
         else:
             deps.append(set(n[4]))
     clo = []
@@ -520,7 +527,20 @@ def gen_workbook(rng, free_ranges=True):
         cellnodes = [i for i, n in enumerate(nodes) if n[0] != 'R']
         if cellnodes and rng.random() < p_formula:
             rs = rects()
-            kind = rng.choice(['ref', 'cat', 'cat', 'add', 'sub', 'eq', 'sum', 'sum', 'cnt', 'idx'])
+            kind = rng.choice(['ref', 'cat', 'cat', 'add', 'sub', 'eq', 'sum', 'sum', 'cnt', 'idx', 'isum'])
+            pairs = []
+            if kind == 'isum':
+                # two rectangles of one sheet sharing at least two cells (a one-cell intersection is a cell
+                # reference computed at run time, C04's subject)
+                for x in rs:
+                    for y in rs:
+                        if x != y and x[0] == y[0]:
+                            c1, r1, c2, r2 = max(x[1], y[1]), max(x[2], y[2]), min(x[3], y[3]), min(x[4], y[4])
+                            if c1 <= c2 and r1 <= r2 and (c2 - c1 + 1) * (r2 - r1 + 1) >= 2:
+                                pairs.append((x, y, [[r - x[2], c - x[1]] for r in range(r1, r2 + 1)
+                                                     for c in range(c1, c2 + 1)]))
+                if not pairs:
+                    kind = 'sum'
             if kind in ('idx',) and not rs:
                 kind = 'cat'
             if kind == 'ref':
@@ -529,6 +549,9 @@ def gen_workbook(rng, free_ranges=True):
                 args = [rng.choice(cellnodes) for _ in range(rng.randint(1, 3))]
             elif kind in ('add', 'sub', 'eq'):
                 args = [rng.choice(cellnodes), rng.choice(cellnodes)]
+            elif kind == 'isum':
+                x, y, ipos = rng.choice(pairs)
+                args = [range_node(x), range_node(y), ipos]
             elif kind in ('sum', 'cnt'):
                 args = []
                 for _ in range(rng.randint(1, 3)):
@@ -757,7 +780,8 @@ def cases(tier, rng):
         names = {}
         if rng.random() < 0.3:
             pool = ['name_a', 'rate_b', 'total_c']
-            used = sorted({j for n in nodes if n[0] == 'F' for j in (n[3][:1] if n[2] == 'idx' else n[3])})
+            used = sorted({j for n in nodes if n[0] == 'F' and n[2] != 'isum'
+                           for j in (n[3][:1] if n[2] == 'idx' else n[3])})
             for j in rng.sample(used, min(len(used), rng.randint(1, 3))):
                 names[pool[len(names)]] = j
         for _ in range(2 if thorough else 1):
